@@ -24,7 +24,7 @@ MANIFEST = {
 		'ordered, namespace / mosaic ids equal their hash definitions. Reflection-based rule discovery (dir(module), inspect) is represented by the '
 		'regenerated tables, not modelled. Tie: every transaction type name of both networks x both entry points x autosort on/off x schema-directed '
 		'descriptors in every documented form and error injections, model vs implementation (member tree, serialize) and a property oracle on the '
-		'implementation alone (independent coercion, re-decode through TransactionFactory.deserialize, to_json). Nested descriptors: a recursive specification of what each rule makes of a descriptor tree, proved equal to what parse/create_core build; error propagation from any depth; fuel sufficiency; autosort at every depth sort() visits (Sym/DescriptorNestedProofs.v, DescriptorSortProofs.v, DescriptorCreateProofs.v).',
+		'implementation alone (independent coercion, re-decode through TransactionFactory.deserialize, to_json). Nested descriptors: a recursive specification of what each rule makes of a descriptor tree, proved equal to what parse/create_core build; error propagation from any depth; fuel sufficiency; autosort at every depth sort() visits (Sym/DescriptorNestedProofs.v, DescriptorSortProofs.v, DescriptorCreateProofs.v).  History probe: sequences of descriptors through one factory against a factory that built nothing before (the model is a function of one descriptor; that the code is too is checked).',
 	'design_ref': 'DESIGN.md section 4, C10',
 	'technique': 'Coq proof, partial (regenerated rule tables + schema interpreter) + vm_compute differential against the Python SDK + property oracle',
 }
